@@ -28,7 +28,9 @@ def engine_versions():
             return subprocess.run(cmd, shell=True, stdout=subprocess.PIPE, stderr=subprocess.STDOUT, text=True, timeout=20).stdout.strip().splitlines()[0]
         except Exception:
             return "?"
-    return {"kani": v("cargo kani --version 2>/dev/null | grep -v WARNING"), "cbmc": v("cbmc --version"), "z3": v("z3 --version")}
+    # engine M uses the z3 Python API of the tooling venv (python3-vt), not the /usr/bin/z3 command-line binary
+    return {"kani": v("cargo kani --version 2>/dev/null | grep -v WARNING"), "cbmc": v("cbmc --version"),
+            "z3": v("python3-vt -c 'import z3; print(\"z3 \" + z3.get_version_string() + \" (z3-solver Python API, tooling venv)\")' 2>/dev/null | grep -v WARNING")}
 
 
 def K(pid, name, module, functions, bounds, tiers=("quick", "thorough"), covers=1, **kw):
@@ -158,6 +160,7 @@ M("C10", "c10_m_message", ["Message::deserialize", "GhostChainSync::deserialize"
   "every tag byte, every payload of length 0..=200; tags 2/3/4 delegate to decoders explored separately; tag 9 (text) uninterpreted")
 M("C10", "c10_m_block", ["Block::deserialize_from_net"], "every buffer of length 0..=565 (thorough 0..=725), transaction count and per-transaction counts symbolic; the per-transaction decoder is uninterpreted here (decided by c10_m_tx); every capacity request (with_capacity / reserve / resize / vec![x; n]) on every path bounded by 64 x length + 4096 elements (all engine-M decoder obligations)")
 
+M("C10", "c10_m_peer_service_record", ["<PeerService as TryFrom<String>>::try_from"], "records of any byte length splitting into 1..=5 pieces (piece count a symbolic input, pieces <= length + 1); pieces opaque; native replay", covers=1)
 # ============================================================================== C09
 PROPERTY_ASSUMPTIONS["C09"] = [
     "engine M over the real encoders/decoders; slices and Vec<u8> are (length, SMT array) pairs, `concat` is array concatenation, to/from_be_bytes are bit-vector extract/concat",
@@ -169,6 +172,7 @@ M("C09", "c09_m_tx_roundtrip", ["Transaction::serialize_for_net_with_hop", "Tran
   "shapes inputs/outputs/hops in {1/1/0, 2/1/1, 0/2/0, 1/0/1} (thorough: all of 0..=2 each), payload of 0..=6 symbolic bytes, every field of every element symbolic; decode must be Ok and equal fieldwise", covers=4)
 M("C09", "c09_m_block_header_roundtrip", ["Block::serialize_for_net(Header)", "Block::deserialize_from_net"], "every value of the 31 header fields on the wire (389 bytes); decode must be Ok and equal fieldwise; native replay", covers=1)
 M("C09", "c09_m_message_tag_agreement", ["Message::deserialize", "Message::get_type_value"], "every buffer of length 0..=200, every tag byte: a decoded message is of the variant whose type value is the first byte", covers=1)
+M("C09", "c09_lite_header_copy", ["Block::generate_lite_block", "Block::generate_merkle_root", "Block::new"], "same as c18_lite_header_copy: 32 header fields of a block without in-memory transactions", covers=1)
 M("C09", "c09_m_tx_size_prediction", ["Transaction::get_serialized_size", "Transaction::serialize_for_net_with_hop", "Slip::serialize_for_net", "Hop::serialize_for_net"], "0..=2 inputs x 0..=1 outputs x 0..=2 hops (thorough 2/2/3), payload length symbolic below 2^32, all field values symbolic", covers=10)
 M("C09", "c09_m_tx_counts_agree", ["Transaction::deserialize_from_net (header section)", "Transaction::serialize_for_net_with_hop (accepted counts: <=255 inputs/outputs)"],
   "count fields symbolic with inputs, outputs <= 255, message <= 2^20, hops <= 64, buffer length exactly the encoded size; element loops cut at the first iteration")
@@ -197,10 +201,13 @@ M("C13", "c13_generate_commits_every_atr", ["saito_core::core::consensus::block:
 M("C01", "c01_generate_commits_every_atr", ["saito_core::core::consensus::block::Block::generate (second sweep)"], "same as c13_generate_commits_every_atr: the privileged ATR type cannot bypass the commitment", covers=2)
 M("C01", "c01_unwind_full_before_revert", ["Blockchain::unwind_chain (async body)", "Blockchain::wind_chain"], "same as c03_unwind_full_before_revert: event order on every path, |new| 1..=2, |old| 0..=1", covers=2)
 M("C01", "c01_ledger_check_switch", ["Blockchain::has_total_supply_loaded", "Blockchain::wind_chain (async body)"], "tip height, genesis period symbolic u64, index content an arbitrary predicate over heights (uninterpreted function); wind_chain: every path of one step on a 2+1 segment", covers=2)
+M("C01", "c01_tx_signature_gate", ["Transaction::validate"], "types Normal / GoldenTicket / Vip / Bound, 1 input x 1..=2 outputs, hash, signature, owner key symbolic; verify_signature verdict free, argument identity checked", covers=1)
 M("C02", "c02_generate_commits_every_atr", ["saito_core::core::consensus::block::Block::generate (second sweep)"], "same as c13_generate_commits_every_atr: the ATR type, exempt from the no-mint comparison, cannot bypass the commitment", covers=2)
+M("C02", "c02_block_double_spend", ["Block::validate (the per-transaction closure: double-spend scan)"], "same as c01_block_double_spend: 1..=3 inputs, one recorded key", covers=3)
 M("C13", "c13_pruned_block_selection", ["Block::generate_consensus_values (async body, up to the point where the block leaving the window is loaded)"], "block id and genesis period symbolic; parent block not indexed (its arithmetic is independent and skipped)", covers=1)
 M("C13", "c13_nft_group_not_split", ["Block::generate_consensus_values (async body, rebroadcast section: collection pass and regrouping pass)"], "block loaded from disk a symbolic input: one transaction with outputs [Bound, payload of any non-Bound type, Bound], all unspent; amounts within the supply; parent not indexed (multiplier 1)", covers=1)
 M("C13", "c13_atr_inputs_checked_against_ledger", ["Transaction::validate_against_utxoset"], "transactions of every type except Fee with 1..=2 inputs; Slip::validate verdicts free", covers=1)
+M("C13", "c13_index_tip_follows_reorg", ["BlockRing::on_chain_reorganization", "RingItem::on_chain_reorganization"], "same as c03_m_blockring_reorg: ring of 4 slots, wrap-around included", covers=2)
 M("C13", "c13_atr_inputs_recorded", [CLO], "ATR-typed transactions with 1..=2 inputs, one arbitrary key already recorded for the block")
 
 # ============================================================================== C04 (and the composition half of C03)
@@ -307,3 +314,4 @@ M("C11", "c11_verify_block_total", ["VerificationThread::verify_block (async bod
 M("C11", "c11_gt_payload", ["Mempool::add_golden_ticket (async body)", "GoldenTicket::deserialize_from_net"], "GoldenTicket-typed transaction with a data field of every length 0..=200")
 M("C11", "c11_network_handshake_gate", ["Network::handle_handshake_response (async body)"], "same as c17_network_gate: a rejected response from a peer in any state ends in a plain return, no panic", covers=1)
 M("C11", "c11_shared_ancestor_total", ["Blockchain::generate_last_shared_ancestor", "generate_last_shared_ancestor_when_peer_ahead", "generate_last_shared_ancestor_when_peer_behind"], "every peer latest-block id, fork id and own tip (u64); index look-ups answer Some(hash) with the first compared byte equal (the other mismatch case is folded); overflow checks on (dev-profile semantics)", covers=1)
+M("C11", "c11_fetched_block_decoder_total", ["Block::deserialize_from_net"], "same as c10_m_block: every buffer of length 0..=565 (thorough 0..=725)", covers=1)
